@@ -29,6 +29,10 @@ def cases(tier, rng):
         for first in list(range(1000, 1020)) + [2016, 2020, 2024]:
             yield {'kind': 'rt', 'recs': [[first, None], [7, 0x40], [300, 0x00], [1012, None], [1, 0x40]], 'blocked': blocked}
         yield {'kind': 'rt', 'recs': [[3, 0x40]] * 400, 'blocked': blocked, 'api': 'many'}
+        for n in (1008, 1012, 1016, 2020, 2024, 3000):
+            for api in ('class', 'list'):
+                yield {'kind': 'rt', 'recs': [[n, 0x40]], 'blocked': blocked, 'api': api}
+                yield {'kind': 'rt', 'recs': [[5, None], [n, 0x40], [n, 0x40], [2, None]], 'blocked': blocked, 'api': api}
         yield {'kind': 'rt', 'recs': [], 'blocked': blocked}
     for _ in range(60 if tier == 'quick' else 1500):
         yield {'kind': 'rt', 'recs': [[rng.choice([1, 2, 4, 1008, 1012, 1016, 2020, 6000, rng.randint(1, 6000)]), rng.choice([None, 0, 0x40])] for _ in range(rng.randint(1, 9))],
